@@ -273,26 +273,21 @@ where
         mut n: u64,
     ) -> Result<(), CopyError<Self::Error, W::Error>> {
         let from_buffer = Ord::min(n, self.bits_in_buffer as _);
-        self.buffer = self.buffer.rotate_left(from_buffer as _);
 
-        #[allow(unused_mut)]
-        let mut self_buffer_u64: u64 = self.buffer.cast();
-
-        #[cfg(feature = "checks")]
-        {
-            // Clean up in case checks are enabled
-            if n < 64 {
-                self_buffer_u64 &= (1_u64 << n) - 1;
-            }
+        // Drain the buffer in pieces of at most 64 bits; these reads are
+        // served by the buffer alone and leave it clean
+        let mut left = from_buffer as usize;
+        while left > 0 {
+            let chunk = Ord::min(left, 64);
+            let bits = self.read_bits(chunk).map_err(CopyError::ReadError)?;
+            bit_write
+                .write_bits(bits, chunk)
+                .map_err(CopyError::WriteError)?;
+            left -= chunk;
         }
-
-        bit_write
-            .write_bits(self_buffer_u64, from_buffer as usize)
-            .map_err(CopyError::WriteError)?;
         n -= from_buffer;
 
         if n == 0 {
-            self.bits_in_buffer -= from_buffer as usize;
             return Ok(());
         }
 
@@ -320,8 +315,10 @@ where
         bit_write
             .write_bits((new_word >> self.bits_in_buffer).upcast(), n as usize)
             .map_err(CopyError::WriteError)?;
+        // Keep only the bits not yet copied, at the top of a clean buffer
         self.buffer = UpcastableInto::<BB<WR>>::upcast(new_word)
-            .rotate_right(WR::Word::BITS as u32 - n as u32);
+            << (BB::<WR>::BITS - 1 - self.bits_in_buffer)
+            << 1;
 
         Ok(())
     }
@@ -516,26 +513,20 @@ where
     ) -> Result<(), CopyError<Self::Error, W::Error>> {
         let from_buffer = Ord::min(n, self.bits_in_buffer as _);
 
-        #[allow(unused_mut)]
-        let mut self_buffer_u64: u64 = self.buffer.cast();
-
-        #[cfg(feature = "checks")]
-        {
-            // Clean up in case checks are enabled
-            if n < 64 {
-                self_buffer_u64 &= (1_u64 << n) - 1;
-            }
+        // Drain the buffer in pieces of at most 64 bits; these reads are
+        // served by the buffer alone and leave it clean
+        let mut left = from_buffer as usize;
+        while left > 0 {
+            let chunk = Ord::min(left, 64);
+            let bits = self.read_bits(chunk).map_err(CopyError::ReadError)?;
+            bit_write
+                .write_bits(bits, chunk)
+                .map_err(CopyError::WriteError)?;
+            left -= chunk;
         }
-
-        bit_write
-            .write_bits(self_buffer_u64, from_buffer as usize)
-            .map_err(CopyError::WriteError)?;
-
-        self.buffer >>= from_buffer;
         n -= from_buffer;
 
         if n == 0 {
-            self.bits_in_buffer -= from_buffer as usize;
             return Ok(());
         }
 
